@@ -131,7 +131,10 @@ def r03b(ctx):
     a = an(F.body(FNH))
     ws = a.calls('merkledb::aggregate_hashes::with_salt')
     rs = [(b, si, k, e) for (b, si, k, e) in a.ret_sites() if k != 'err']
-    empty = __import__('xl.core', fromlist=['bool_edges']).bool_edges(a, lambda e: e[0] == 'call' and sg(e[1]).endswith('is_empty') and flow.mentions(e, lambda z: z == ('param', 1, 'chunks')))[0]
+    empty = __import__('xl.core', fromlist=['bool_edges']).bool_edges(a, lambda e: e[0] == 'call' and sg(e[1]).endswith('is_empty') and flow.mentions(e, lambda z: z[0] == 'param' and z[1] == 1))[0]
+    # `match chunks { [] => .. }` / `chunks.len() == 0`
+    empty = list(empty) + list(__import__('xl.core', fromlist=['edges_where']).edges_where(a, lambda op, l, r: op == 'Eq' and l[0] in ('len', 'call') and 'len' in flow.show(l) and flow.mentions(l, lambda z: z[0] == 'param' and z[1] == 1)
+                                                                                      and not flow.mentions(l, lambda z: z[0] == 'local') and r[:2] == ('const', 0)))
     n = 0
     for (b, si, k, e) in rs:
         if ws and a.rooted_at(e, ws[0]):
@@ -156,11 +159,24 @@ def r03c(ctx):
     a = an(F.body('data::file_cleaner::SingleFileCleaner::add_data::{closure#0}'))
     fn = a.path
     calls = a.calls('data::file_cleaner::SingleFileCleaner::add_data_impl')
-    ctx.floor('R03c', 'add_data_impl call sites in add_data', len(calls), 2)
-    whole = [c for c in calls if a.arg(c, 1)[0] in ('upvar', 'param')]
+    ctx.floor('R03c', 'add_data_impl call sites in add_data', len(calls), 1)
+    is_data = lambda y: y[0] in ('upvar', 'param') and (y[1] == 'data' or (len(y) > 2 and y[2] == 'data'))
+    whole = [c for c in calls if is_data(a.arg(c, 1))]
     part = [c for c in calls if a.arg(c, 1)[0] == 'index']
-    ok = len(whole) == 1 and len(part) == 1
-    if ctx.check(ok, 'R03c', fn, 'forms', '-', 'one whole-buffer forward and one sliced forward'):
+    # blocks of `data.chunks(n)` visited by a loop
+    from . import loops as L
+    is_chunks = lambda z: z[0] == 'call' and sg(z[1]).split('::')[-1] == 'chunks' and z[2] and is_data(z[2][0])
+    blockwise = []
+    for c in calls:
+        if c in whole or c in part:
+            continue
+        lp_ = c05.loop_of(a, c)
+        wp_ = L.whole_pass(a, lp_, is_chunks) if lp_ else None
+        if wp_ is not None and wp_['elem'](a.arg(c, 1)) and L.every_iteration_passes(a, lp_, c):
+            blockwise.append(c)
+    ok = len(whole) + len(part) + len(blockwise) == len(calls) and len(part) <= 1 and len(blockwise) <= 1 and (part or blockwise or whole)
+    if ctx.check(ok, 'R03c', fn, 'forms', '-', 'every forward passes the whole buffer, the next block of a cursor over it, or the next block of data.chunks(n)'):
+      if part:
         p = part[0]
         lp = c05.loop_of(a, p)
         sl = a.arg(p, 1)
@@ -173,7 +189,9 @@ def r03c(ctx):
             vals = [a.flow.rvalue(d[3], 0) for d in ds]
             okr = any(v == ('const', 0, 'usize') for v in vals) and any(flow.eqv(v, en) for v in vals if v[0] != 'const') and len(vals) == 2
             # the loop exits when pos >= data.len() and next_pos = min(pos + block, len)
-            okr = okr and flow.mentions(en, lambda z: z[0] == 'call' and sg(z[1]).endswith('min')) and flow.mentions(en, lambda z: z[0] in ('len', 'call') and flow.mentions(z, lambda y: y[0] in ('upvar', 'param') and (y[1] == 'data' or (len(y) > 2 and y[2] == 'data'))))
+            from .core import as_min
+            mn = as_min(a, en)
+            okr = okr and mn is not None and any(z[0] in ('len', 'call') and flow.mentions(z, is_data) and not flow.mentions(z, lambda y: y[0] == 'local') for z in mn)
         ctx.check(okr, 'R03c', fn, 'slices', a.loc(p), 'the sliced forward passes data[pos..next_pos], pos starts at 0 and becomes next_pos = min(pos + block, data.len()) each iteration (contiguous, no gap or overlap)')
         for c in calls:
             ctx.check(a.awaited(c) is not None, 'R03c', fn, 'awaited', a.loc(c), 'the forward is awaited in place (order preserved)')
